@@ -153,6 +153,13 @@ def shape_script(shape, fault, lab):
 
 
 # ----------------------------------------------------------------------------- scenario building
+def wire_mode(m):
+    """'down' is played by the mock's `down_held`: connections are refused by the kernel and existing sessions are closed,
+    but the port stays reserved - 16 scenario processes run side by side and a port freed by `down` can be handed to a
+    mock of ANOTHER scenario, whose rows would then show up here."""
+    return "slow" if m.startswith("slow") else ("down_held" if m == "down" else m)
+
+
 def build(topo, hl, initial_modes=None, gap=6):
     """hl: list of high-level steps (dicts).  Returns the wire scenario; hl steps get 'k' (index)."""
     backends = []
@@ -160,7 +167,7 @@ def build(topo, hl, initial_modes=None, gap=6):
         b = {"name": a["name"], "host": a["host"]}
         m = (initial_modes or {}).get(a["name"])
         if m:
-            b["mode"] = "slow" if m.startswith("slow") else m
+            b["mode"] = wire_mode(m)
             if m.startswith("slow"):
                 b["slow_ms"] = int(m[4:])
         backends.append(b)
@@ -174,7 +181,7 @@ def build(topo, hl, initial_modes=None, gap=6):
         op = s["op"]
         if op == "mode":
             m = s["mode"]
-            st = {"op": "backend", "b": s["b"], "mode": "slow" if m.startswith("slow") else m}
+            st = {"op": "backend", "b": s["b"], "mode": wire_mode(m)}
             if m.startswith("slow"):
                 st["slow_ms"] = int(m[4:])
             steps += [st, {"op": "sleep", "ms": 35}]
@@ -333,6 +340,8 @@ def observe_txn(topo, s, w):
                 if ("/*%s*/" % lab) in sql:
                     stmt_at = who
     kind, arg = classify_client(frames, outcome)
+    if kind == "ok" and arg not in names:
+        kind, arg = "other", "row from a backend of another scenario: %s" % arg      # never seen since 'down' keeps its port
     return {"kind": kind, "arg": arg, "contacts": contacts, "hc": hc, "stmt_at": stmt_at,
             "pre": pool_bans(w["pre"]), "post": pool_bans(w["post"]), "t0": w["pre"]["unix_ms"], "t1": w["post"]["unix_ms"]}
 
